@@ -124,6 +124,9 @@ def spaces(tier, seed):
     multi = {l for l, loc in LOCS if loc is not None}
     fam_names = [i for i, x in enumerate(N) if LOCS[x[0]][0] in multi]
     return [
+        Product("after-the-unaccented-spelling", {"n": [i for i, x in enumerate(N) if x[3] and vocab.strip_accents(x[2]) != x[2]], "d": [15], "y": [2015], "mode": [False, True]},
+                note="two-call history inside the case: the name typed without its accents is parsed first under the other NORMALIZE value (whatever that gives), "
+                     "then the listed spelling must resolve"),
         Product("after-loading-sibling-locales", {"order": ORDERS, "n": fam_names},
                 note="fresh interpreter per (language, load order): all locale objects of the language are loaded in that order, then every name of "
                      "every one of them is checked - a locale must understand its names whatever sibling locales were used before"),
@@ -138,6 +141,16 @@ def spaces(tier, seed):
 def run_case(sub, c):
     li, key, name, norm = names()[c["n"]]
     lang, loc = LOCS[li]
+    if sub == "after-the-unaccented-spelling":
+        m_ = key in vocab.MONTH_KEYS
+        plain = vocab.strip_accents(name)
+        first = ("%d %s %d" % (c["d"], plain, c["y"])) if m_ else plain
+        langs_, locs_ = ([lang], None) if loc is None else (None, [loc])
+        api.outcome_of(api.gdd, first, langs_, locs_, None, {"NORMALIZE": c["mode"], "RELATIVE_BASE": FAM_BASE})
+        r = run_case("month-names" if m_ else "weekday-names", {"n": c["n"], "d": c["d"], "y": c["y"], "base": FAM_BASE})
+        if r[2] is not None:
+            r[2]["detail"]["first_call"] = {"string": first, "NORMALIZE": c["mode"]}
+        return r
     if sub == "after-loading-sibling-locales":
         bad = family_result(lang, c["order"]).get(c["n"])
         if bad is None:
